@@ -331,14 +331,14 @@ func (s *session) allocFileNum() int64 {
 }
 
 // Reuse given file number.
-func (s *session) reuseFileNum(num int64) {
+func (s *session) reuseFileNum(num int64) bool {
 	for {
 		old, x := atomic.LoadInt64(&s.stNextFileNum), num
 		if old != x+1 {
 			x = old
 		}
 		if atomic.CompareAndSwapInt64(&s.stNextFileNum, old, x) {
-			break
+			return x == num
 		}
 	}
 }
